@@ -213,6 +213,30 @@ def run(ctx: Ctx) -> int:
             ok = (ea is not None and isinstance(ea, ast.Constant) and ea.value is False) or (via_table and djk is not None and isinstance(djk.get("ensure_ascii"), ast.Constant) and djk["ensure_ascii"].value is False)
             ctx.oblige("C01.a", ok, c, f"{name} writes non-ASCII characters literally (ensure_ascii=False): no surrogate-pair escapes the yaml loader would reject" if ok else f"{name} calls json.dumps with ensure_ascii on: a string with a character outside the BMP is written as a surrogate-pair escape that the yaml loader cannot read back", fn=fn)
 
+    # a dump header is a comment: it is only written for formats whose readers accept that comment syntax, and
+    # the prefix is chosen by the FORMAT NAME (json_indented and jsonnet share one dumper function)
+    cp = None
+    for s_ in ld.tree.body:
+        tg_ = s_.targets[0] if isinstance(s_, ast.Assign) else getattr(s_, "target", None)
+        if isinstance(s_, (ast.Assign, ast.AnnAssign)) and isinstance(tg_, ast.Name) and tg_.id == "comment_prefix" and isinstance(s_.value, ast.Dict):
+            cp = s_.value
+    ctx.need(cp is not None, "_loaders_dumpers: comment_prefix table")
+    keys_ = [const_str(k) for k in cp.keys]
+    duf = ctx.func("_loaders_dumpers:dump_using_format")
+    fmt_param = duf.args.args[2].arg if len(duf.args.args) > 2 else None
+    lookups = [n_ for n_ in ast.walk(duf) if (isinstance(n_, ast.Subscript) and dotted(n_.value) == "comment_prefix") or (isinstance(n_, ast.Call) and call_leaf(n_) == "get" and isinstance(n_.func, ast.Attribute) and dotted(n_.func.value) == "comment_prefix")]
+    by_name = bool(lookups) and all((isinstance(n_, ast.Subscript) and isinstance(n_.slice, ast.Name) and n_.slice.id == fmt_param) or (isinstance(n_, ast.Call) and n_.args and isinstance(n_.args[0], ast.Name) and n_.args[0].id == fmt_param) for n_ in lookups)
+    ok = None not in keys_ and not ({"json", "json_indented", "json_compact"} & set(keys_)) and by_name
+    ctx.oblige(
+        "C01.a",
+        ok,
+        cp,
+        f"header comments are written only for {sorted(k for k in keys_ if k)} and chosen by format name: JSON output never starts with a comment" if ok else "the header comment prefix is not chosen by format name from a table without the JSON formats: JSON output (a *.json sub-file of a multi-file save, format=json_indented) starts with `// ...` lines that no JSON / YAML reader accepts",
+        site="_loaders_dumpers:comment_prefix",
+        construct="comment prefix by format name",
+        function="_loaders_dumpers:<module>",
+    )
+
     # ---------------- C01.f: the caller's dump options reach nested serialisation ----
     dca = ctx.func("_core:ArgumentParser._dump_cleanup_actions")
     sers = [c for c in calls_in(dca) if call_leaf(c) == "serialize" and root_name(c.func) == "action"]
